@@ -185,10 +185,19 @@ func lemmaObligation(u *Universe, p *Prelude, l *Lemma, idx int) (o *Obligation,
 	if mode == "" {
 		mode = "ctl"
 	}
-	return &Obligation{Func: "lemma." + l.Name, Name: "lemma." + l.Name, Kind: "lemma", Goal: t, Mode: mode, Text: l.Text, Pos: l.Pos, Props: l.Props, Canary: l.Canary, LemmaIndex: idx}, nil
+	// skolemise the outer universal quantifier and move hypotheses out of the goal
+	var hyps []*Term
+	for t.Op == "forall" {
+		m := map[string]*Term{}
+		for _, b := range t.Bind {
+			m[b.Op] = V("sk."+b.Op, b.Sort)
+		}
+		t = subst(t.Args[0], m)
+		for t.Op == "=>" {
+			hyps = append(hyps, t.Args[0])
+			t = t.Args[1]
+		}
+	}
+	return &Obligation{Func: "lemma." + l.Name, Name: "lemma." + l.Name, Kind: "lemma", Hyps: hyps, Goal: t, Mode: mode, Text: l.Text, Pos: l.Pos, Props: l.Props, Canary: l.Canary, LemmaIndex: idx}, nil
 }
 
-func cmdCheck(prop, tier string) int {
-	fmt.Fprintln(os.Stderr, "check: not implemented yet")
-	return 2
-}
